@@ -16,7 +16,7 @@ import (
 func init() {
 	register(&explore.Prop{
 		ID: "C13", Level: levelMC, Explorer: "E2 sequence explorer, state mode (BFS over the real private state of the reused objects)",
-		Rule: "slots = one reusable PostingsList and one reusable PostingsIterator, plus one long-lived Dictionary per (segment, field); operation = lookup(segment in {built multi-chunk with locations, merged with 1-hit and general terms, empty batch}, field in {with terms, known without terms, unknown}, term in {general, single-doc (1-hit in the merged segment), absent}, except in {nil, first doc, all docs}, flags in {000,100,111}, consume in {0,1,all,all+1 postings}, prealloc PostingsList in {nil, slot}, prealloc PostingsIterator in {nil, slot}); BFS over states = (VerifStatePL(slot), VerifStateIter(slot)) to a fixpoint: every reuse history of any length over this alphabet; oracle: the complete result of each lookup equals the same lookup with fresh objects and the reference model; " +
+		Rule: "slots = one reusable PostingsList and one reusable PostingsIterator, plus one long-lived Dictionary per (segment, field); operation = lookup(segment in {built multi-chunk with locations, merged with 1-hit and general terms, empty batch}, field in {with terms, known without terms, unknown}, term in {general, single-doc (1-hit in the merged segment), absent}, except in {nil, first doc, all docs}, flags in {000,100,111}, consume in {0,1,all,all+1 postings}, prealloc PostingsList in {nil, slot}, prealloc PostingsIterator in {nil, slot}), plus reiterate: the list held in the slot since an earlier lookup is asked again for Count and an iterator (with or without the slot iterator) without a new lookup; BFS over states = (VerifStatePL(slot), VerifStateIter(slot)) to a fixpoint: every reuse history of any length over this alphabet; oracle: the complete result of each lookup equals the same lookup with fresh objects and the reference model; " +
 			"distinct/non-trivial = transitions whose lookup reuses an object last used for a different (segment, field, term, except, flags)",
 		Assumptions: append(append([]string{}, commonAssumptions...), "vellum.Reader state inside a long-lived Dictionary is not part of the state key (trusted to be result-neutral)"),
 		Budget:      qBudget, Run: runC13,
@@ -26,6 +26,10 @@ func init() {
 type lookupOp struct {
 	seg, field, term, exc, flags, consume int
 	reusePL, reusePI                      bool
+	// reiterate: no dictionary lookup; the postings list held in the slot since an earlier lookup is
+	// used again as it is (Count, Iterator with or without the slot iterator as prealloc). It must
+	// still answer what the lookup that produced it answers with fresh objects.
+	reiterate bool
 }
 
 type c13Env struct {
@@ -39,6 +43,9 @@ type c13Env struct {
 }
 
 func (o lookupOp) String(e *c13Env) string {
+	if o.reiterate {
+		return fmt.Sprintf("reiterate(held list, flags=%03b, consume=%d, reusePI=%v)", e.flags[o.flags], o.consume, o.reusePI)
+	}
 	return fmt.Sprintf("lookup(seg%d,%q,%q,exc=%d,flags=%03b,consume=%d,reusePL=%v,reusePI=%v)", o.seg, e.fields[o.field], e.terms[o.term], o.exc, e.flags[o.flags], o.consume, o.reusePL, o.reusePI)
 }
 
@@ -110,11 +117,18 @@ func newC13Env(thorough bool) (*c13Env, error) {
 					for fl := range e.flags {
 						for consume := 0; consume < 4; consume++ {
 							for r := 0; r < 4; r++ {
-								e.ops = append(e.ops, lookupOp{s, f, t, exc, fl, consume, r&1 != 0, r&2 != 0})
+								e.ops = append(e.ops, lookupOp{seg: s, field: f, term: t, exc: exc, flags: fl, consume: consume, reusePL: r&1 != 0, reusePI: r&2 != 0})
 							}
 						}
 					}
 				}
+			}
+		}
+	}
+	for fl := range e.flags {
+		for consume := 0; consume < 4; consume += 2 {
+			for r := 0; r < 2; r++ {
+				e.ops = append(e.ops, lookupOp{flags: fl, consume: consume, reusePI: r == 1, reiterate: true})
 			}
 		}
 	}
@@ -139,6 +153,7 @@ type c13Machine struct {
 	pi    segment.PostingsIterator
 	// provenance of the slots (for the non-trivial rule)
 	plFrom, piFrom string
+	plOp           int // index of the lookup that produced the list in the slot (-1 none)
 	reuseDiff      *int64
 }
 
@@ -161,6 +176,8 @@ func (m *c13Machine) Key() string {
 	return a + " || " + b
 }
 
+func (m *c13Machine) exceptFor(o lookupOp) *roaring.Bitmap { return m.except(o) }
+
 func (m *c13Machine) except(o lookupOp) *roaring.Bitmap {
 	ls := m.e.models[o.seg]
 	switch o.exc {
@@ -182,14 +199,25 @@ func (m *c13Machine) except(o lookupOp) *roaring.Bitmap {
 }
 
 func doLookup(e *c13Env, dict segment.Dictionary, o lookupOp, exc *roaring.Bitmap, prePL segment.PostingsList, prePI segment.PostingsIterator) (res lookupResult, pl segment.PostingsList, pi segment.PostingsIterator) {
+	var err error
+	msg := explore.Guard(func() { pl, err = dict.PostingsList([]byte(e.terms[o.term]), exc, prePL) })
+	if msg != "" {
+		res.err = msg
+		return
+	}
+	if err != nil {
+		res.err = "PostingsList: " + err.Error()
+		return
+	}
+	res, pi = walkList(e, pl, o, prePI)
+	return
+}
+
+// walkList asks pl for its count and an iterator and consumes it as o says.
+func walkList(e *c13Env, pl segment.PostingsList, o lookupOp, prePI segment.PostingsIterator) (res lookupResult, pi segment.PostingsIterator) {
 	fl := e.flags[o.flags]
 	msg := explore.Guard(func() {
 		var err error
-		pl, err = dict.PostingsList([]byte(e.terms[o.term]), exc, prePL)
-		if err != nil {
-			res.err = "PostingsList: " + err.Error()
-			return
-		}
 		pi, err = pl.Iterator(fl&1 != 0, fl&2 != 0, fl&4 != 0, prePI)
 		if err != nil {
 			res.err = "Iterator: " + err.Error()
@@ -238,6 +266,21 @@ func (m *c13Machine) Replay(op int) {
 
 func (m *c13Machine) apply(op int) (o lookupOp, exc *roaring.Bitmap, got lookupResult, errs string) {
 	o = m.e.ops[op]
+	if o.reiterate {
+		if m.pl == nil || m.plOp < 0 {
+			return o, nil, got, ""
+		}
+		var prePI segment.PostingsIterator
+		if o.reusePI && m.pi != nil {
+			prePI = m.pi
+		}
+		var pi segment.PostingsIterator
+		got, pi = walkList(m.e, m.pl, o, prePI)
+		if o.reusePI && pi != nil {
+			m.pi, m.piFrom = pi, "reiterate"
+		}
+		return o, nil, got, ""
+	}
 	key := [2]int{o.seg, o.field}
 	dict := m.dicts[key]
 	if dict == nil {
@@ -267,7 +310,7 @@ func (m *c13Machine) apply(op int) (o lookupOp, exc *roaring.Bitmap, got lookupR
 	var pi segment.PostingsIterator
 	got, pl, pi = doLookup(m.e, dict, o, exc, prePL, prePI)
 	if o.reusePL && pl != nil {
-		m.pl, m.plFrom = pl, desc
+		m.pl, m.plFrom, m.plOp = pl, desc, op
 	}
 	if o.reusePI && pi != nil {
 		m.pi, m.piFrom = pi, desc
@@ -276,6 +319,28 @@ func (m *c13Machine) apply(op int) (o lookupOp, exc *roaring.Bitmap, got lookupR
 }
 
 func (m *c13Machine) Step(op int) string {
+	if m.e.ops[op].reiterate {
+		src := m.plOp
+		held := m.pl
+		o, _, got, _ := m.apply(op)
+		if held == nil || src < 0 {
+			return ""
+		}
+		// what the producing lookup answers with fresh objects under this operation's flags/consume
+		po := m.e.ops[src]
+		po.flags, po.consume, po.reusePL, po.reusePI = o.flags, o.consume, false, false
+		fdict, err := m.e.segs[po.seg].Dictionary(m.e.fields[po.field])
+		if err != nil {
+			return "error: fresh Dictionary: " + err.Error()
+		}
+		save := m.e.ops[src]
+		_ = save
+		want, _, _ := doLookup(m.e, fdict, po, m.exceptFor(po), nil, nil)
+		if got.String() != want.String() {
+			return fmt.Sprintf("reuse: held-list: %s on the list produced by %s gave %s, fresh objects give %s", o.String(m.e), m.e.ops[src].String(m.e), got, want)
+		}
+		return ""
+	}
 	o, exc, got, errs := m.apply(op)
 	if errs != "" {
 		return errs
@@ -346,7 +411,7 @@ func runC13(c *explore.Ctx) {
 	scope := "REUSE"
 	var reuseDiff int64
 	newM := func() explore.Machine {
-		return &c13Machine{e: e, dicts: map[[2]int]segment.Dictionary{}, reuseDiff: &reuseDiff}
+		return &c13Machine{e: e, dicts: map[[2]int]segment.Dictionary{}, reuseDiff: &reuseDiff, plOp: -1}
 	}
 	// quick: every history of length <= 3 (every predecessor/successor pair and triple, de-duplicated by
 	// state); thorough: to a fixpoint unless the state cap or the deadline ends the search first
